@@ -63,6 +63,7 @@ type Term struct {
 	p1   int
 	p2   int
 	h    uint64 // structural hash (independent of creation order: used to order commutative operands)
+	ua   bool   // contains an uninterpreted-function application
 }
 
 func (t *Term) IsConst() bool { return t.op == OpConst }
@@ -139,6 +140,10 @@ func (s *TermStore) mk(t *Term) *Term {
 		mix(a.h)
 	}
 	t.h = h
+	t.ua = t.op == OpApp
+	for _, a := range t.args {
+		t.ua = t.ua || a.ua
+	}
 	s.tab[k] = t
 	return t
 }
